@@ -41,6 +41,12 @@ def check(prog: Program, tier: str) -> Result:
     _r6_3(prog, res)
     _r6_4(prog, res)
     _r6_5(prog, res)
+    # worker processes live across files and passes: a memo inside the rule wrappers makes a file's result depend on what
+    # the same worker formatted before, i.e. on the worker count and schedule - decided by the C05 check, adopted
+    from . import c05 as _c05
+    _tmp = Result("C05", "", "")
+    _c05._r5_6(prog, _tmp)
+    res.adopt(_tmp, {"R5.6"}, "R6.6", "with parallel workers, state kept between calls makes the output depend on which files a worker was given before")
     res.floors.update({"R6.1": 5, "R6.2": 3, "R6.3": 3, "R6.4": 1})
     return res
 
